@@ -17,7 +17,8 @@ META = dict(
          "transmitIx(P) (unsent data queued on the entry) and peerbreak(P) (send() raises EPIPE / EBADF from then on): removeIx, "
          "closeIx, closeAllIx - also removeIx after closeIx - must still close, drop the key and not raise - depth 5 / 7. A fifth family "
          "(Server) adds connectalt(P): the peer connects to the server's second local address, so a re-accepted peer address "
-         "has a different getsockname() - depth 6 / 8. After every transition: no operation raised; per peer address at "
+         "has a different getsockname() - depth 6 / 8. A sixth family adds the caller's "
+         "shutdownSendIx(P) / shutdownReceiveIx(P); a later replacement must still shut both directions - depth 6 / 8. After every transition: no operation raised; per peer address at "
          "most one table entry (.ixes and .cxes together) whose socket is neither shut down nor closed; the newest accepted, "
          "not removed connection of each address is the one in the table; a replaced stale connection is shut down or "
          "closed; no other socket was shut down or closed; removeIx leaves the socket closed and the key gone.",
@@ -46,6 +47,10 @@ SEND_FAULTS = ("send-EPIPE", "send-EBADF")
 # configuration with connectalt(P): the peer connects to the server's second local address (the server listens
 # on 0.0.0.0), so a re-accepted peer address comes with a different getsockname(); plain Server only (ServerTls
 # rejects sockets whose local address is not its .eha)
+# configuration with shutdownSendIx(P) / shutdownReceiveIx(P): the caller half-closes an entry; a later
+# replacement / removal must still shut the socket down in BOTH directions or close it
+HALF = "half-shutdown"
+HALF_DEPTH = dict(quick=6, thorough=8)
 ALT_LOCAL = "alt-local-address"
 ALT_HA = ("127.0.0.2", PORT)
 ALT_DEPTH = dict(quick=6, thorough=8)
@@ -79,7 +84,7 @@ class HsPolicy:
 
 
 class Conn:
-    __slots__ = ("idx", "peer", "client", "srv", "accepted", "removed", "closedix", "reset", "bad", "reported")
+    __slots__ = ("idx", "peer", "client", "srv", "accepted", "removed", "closedix", "reset", "bad", "reported", "exp_wr", "exp_rd")
 
     def __init__(self, idx, peer, client, srv):
         self.idx = idx
@@ -92,6 +97,8 @@ class Conn:
         self.reset = False      # the peer reset it: shutdown() on the server-side socket raises the configured errno
         self.bad = False        # connectbad: getpeername() of the accepted socket faults, serviceAxes must reject it
         self.reported = False   # ... and did so (one exception out of serviceConnects)
+        self.exp_wr = False     # the caller applied shutdownSendIx to its entry
+        self.exp_rd = False     # the caller applied shutdownReceiveIx to its entry
 
 
 class World:
@@ -102,7 +109,8 @@ class World:
         self.afault = fault if fault in ACCEPT_FAULTS else None
         self.sfault = fault if fault in SEND_FAULTS else None
         self.alt = fault == ALT_LOCAL
-        self.fault = None if (self.afault or self.sfault or self.alt) else fault   # errno raised by shutdown() after a peerreset
+        self.half = fault == HALF
+        self.fault = None if (self.afault or self.sfault or self.alt or self.half) else fault   # errno raised by shutdown() after a peerreset
         self.policy = HsPolicy()
         self.fn = net.FakeNet(policy=self.policy)
         FSM.net = self.fn
@@ -153,10 +161,12 @@ class World:
     def status(sock):
         if sock.closed:
             return "closed"
-        if sock.shut_wr or sock.shut_rd:
+        if sock.shut_wr and sock.shut_rd:
             return "shut"
         if "shutdown" in sock.sticky and sock.calls["shutdown"]:
             return "shut"       # shutdown was attempted on a transport the peer had already reset
+        if sock.shut_wr or sock.shut_rd:
+            return "half"       # only one direction shut down
         return "open"
 
     # -- events
@@ -187,6 +197,15 @@ class World:
                 evs.append(("removeIx", p))
                 if self.srv.ixes[p].cs is not None:
                     evs.append(("closeIx", p))
+        if self.half:
+            for p in PEERS:
+                ix = self.srv.ixes.get(p)
+                if ix is not None and ix.cs is not None:
+                    c = self.conn_of(ix)
+                    if not c.exp_wr:
+                        evs.append(("shutdownSendIx", p))
+                    if not c.exp_rd:
+                        evs.append(("shutdownReceiveIx", p))
         if self.sfault:
             for p in PEERS:
                 if p in self.srv.ixes and len(self.srv.ixes[p].txes) < 1:
@@ -236,6 +255,15 @@ class World:
                 return
             if op == "transmitIx":
                 srv.transmitIx(b"x", ev[1])
+                return
+            if op in ("shutdownSendIx", "shutdownReceiveIx"):
+                conn = self.conn_of(srv.ixes[ev[1]])
+                getattr(srv, op)(ev[1])
+                if op == "shutdownSendIx":
+                    conn.exp_wr = True
+                else:
+                    conn.exp_rd = True
+                self.invariants(op)
                 return
             if op == "serviceConnects":
                 self.policy.pend = (ev[1] == "pend")
@@ -328,7 +356,7 @@ class World:
         for p in PEERS:
             mine = [c for c in self.conns if c.peer == p]
             entries = [c for c in mine if c.idx in referenced]
-            unshut = [c for c in entries if self.status(c.srv) == "open"]
+            unshut = [c for c in entries if self.status(c.srv) in ("open", "half")]
             if len(unshut) > 1 or any(len(referenced[c.idx]) > 1 for c in entries):
                 self.viol = ("two-live-entries", "peer %r has %d table entries with sockets neither shut down nor closed "
                              "(connections %s)" % (p, len(unshut), [c.idx for c in unshut]))
@@ -347,12 +375,14 @@ class World:
                     continue       # judged when the op ran
                 stale = c.accepted and any(d.accepted and d.idx > c.idx for d in mine)
                 if stale and c.idx not in referenced:
-                    if st == "open":
+                    if st in ("open", "half"):
                         self.viol = ("stale-not-shut-down", "connection %d from %r was replaced in the table by a newer "
-                                     "connection from the same address but its socket was neither shut down nor "
-                                     "closed" % (c.idx, p))
+                                     "connection from the same address but its socket was %s" % (c.idx, p,
+                                     "neither shut down nor closed" if st == "open" else
+                                     "shut down in one direction only (send side %s, receive side %s) and not closed"
+                                     % ("down" if c.srv.shut_wr else "open", "down" if c.srv.shut_rd else "open")))
                         return
-                elif not stale and st != "open":
+                elif not stale and st != ("shut" if (c.exp_wr and c.exp_rd) else "half" if (c.exp_wr or c.exp_rd) else "open"):
                     self.viol = ("closed-something-else", "socket of connection %d from %r is %s although it was neither "
                                  "removed nor replaced" % (c.idx, p, st))
                     return
@@ -378,7 +408,7 @@ class World:
                 if not ref and not inback and st == "closed" and c.client.closed:
                     continue          # fully dead: cannot influence anything any more
                 row.append((ref, inback, st, c.client.closed, c.removed, c.closedix, len(c.srv.inbox), c.reset,
-                            c.srv.calls["shutdown"] > 0, c.bad, c.reported, c.srv.laddr[0]))
+                            c.srv.calls["shutdown"] > 0, c.bad, c.reported, c.srv.laddr[0], c.srv.shut_wr, c.srv.shut_rd))
             per.append((p in self.live, tuple(row)))
         order = tuple(tuple(tbl.keys()) for _, tbl in self.tables())
         back = tuple((s.raddr, s.laddr[0]) for s in srv.ss.backlog)
@@ -403,14 +433,16 @@ def report(p, subject, w, hist):
     ftag = " [after peerreset shutdown() raises %s]" % w.fault if w.fault else ""
     if w.afault:
         ftag = " [connectbad: %s]" % w.afault
+    if w.half:
+        ftag = " [with shutdownSendIx / shutdownReceiveIx events]"
     if w.alt:
         ftag = " [connectalt: the peer connects to 127.0.0.2, the server's other local address]"
     if w.sfault:
         ftag = " [after peerbreak send() raises %s]" % w.sfault.split("-")[1]
     p.violation("%s|%s" % (subject, kind), " ".join(show(e) for e in hist) + (" shutdown=%s" % w.fault if w.fault else "")
-                + (" %s" % (w.afault or w.sfault) if (w.afault or w.sfault) else "") + (" " + ALT_LOCAL if w.alt else ""),
+                + (" %s" % (w.afault or w.sfault) if (w.afault or w.sfault) else "") + (" " + ALT_LOCAL if w.alt else "") + (" " + HALF if w.half else ""),
                 "%s after history [%s]%s: %s" % (subject, ", ".join(show(e) for e in hist), ftag, what),
-                dict(subject=subject, shutdown_fault=w.fault or w.afault or w.sfault or (ALT_LOCAL if w.alt else None), history=[[e[0]] + [list(x) if isinstance(x, tuple) else x for x in e[1:]] for e in hist],
+                dict(subject=subject, shutdown_fault=w.fault or w.afault or w.sfault or (ALT_LOCAL if w.alt else None) or (HALF if w.half else None), history=[[e[0]] + [list(x) if isinstance(x, tuple) else x for x in e[1:]] for e in hist],
                      what=what, double_log=w.fn.trace(30),
                      how="serving.%s(ha=('',%d)) over mc.net doubles; connect = raw client bound to the peer "
                          "address connects and sends one byte; peerclose = that client closes; peerreset = that client "
@@ -489,6 +521,7 @@ def run():
     cfgs += [(sub, AFAULT_DEPTH[core.TIER], f) for f in ACCEPT_FAULTS for sub in ("Server", "ServerTls")]
     cfgs += [(sub, SFAULT_DEPTH[core.TIER], f) for f in SEND_FAULTS for sub in ("Server", "ServerTls")]
     cfgs.append(("Server", ALT_DEPTH[core.TIER], ALT_LOCAL))
+    cfgs += [(sub, HALF_DEPTH[core.TIER], HALF) for sub in ("Server", "ServerTls")]
     ck.merge(core.pmap(explore, cfgs))
     ck.assumptions = [
         "a second connection from the same peer address can be made only after the previous client socket bound to that "
@@ -505,6 +538,8 @@ def run():
         "exceptions",
         "connectalt: the table is keyed by peer address alone, so a peer address re-accepted on another local address of the "
         "server still replaces (and must shut down) the stale entry",
+        "'shut down' for a replaced stale entry means both directions (or closed, or attempted on a reset transport); a "
+        "caller's own shutdownSendIx / shutdownReceiveIx leaves the entry in place with exactly that direction down",
         "transmitIx / peerbreak family: data queued on an entry may be unsendable (send raises EPIPE / EBADF, or the entry was "
         "closed with closeIx); removeIx / closeIx / closeAllIx must nevertheless close the socket, drop the key (removeIx) and "
         "not raise; serviceTxesAllIx is not an event there because a non-loss send error propagating out of it is C25's rule",
@@ -519,8 +554,9 @@ def run():
              "closeAllIx up to depth %d; plus, per accept fault in {getpeername ENOTCONN, getpeername address mismatch}, the "
              "base events and connectbad(P) up to depth %d; plus, per send fault in {EPIPE, EBADF}, the base events, "
              "transmitIx(P), peerbreak(P) and closeAllIx up to depth %d; plus (Server) the base events and connectalt(P) = connect "
-             "to the server's second local address, up to depth %d; states merged by canonical form; a state that violates an "
-             "invariant is not expanded" % (depth, fdepth, AFAULT_DEPTH[core.TIER], SFAULT_DEPTH[core.TIER], ALT_DEPTH[core.TIER]),
+             "to the server's second local address, up to depth %d; plus the base events with shutdownSendIx(P) / "
+             "shutdownReceiveIx(P) up to depth %d; states merged by canonical form; a state that violates an "
+             "invariant is not expanded" % (depth, fdepth, AFAULT_DEPTH[core.TIER], SFAULT_DEPTH[core.TIER], ALT_DEPTH[core.TIER], HALF_DEPTH[core.TIER]),
         exhaustive=False,
         explanation="depth-bounded: exhaustive over all histories up to the stated depth, not a fixpoint "
                     "(leaked stale sockets make the state space unbounded)")
